@@ -62,7 +62,7 @@ theorem bandwidth_scale {c eps base : ℝ} (hc : 0 < c) (K : Spec ℝ) (hK : Par
   | none => rfl
   | some m =>
     obtain ⟨h1, h2⟩ := hg m hm
-    simp only [Option.map_some, not_lt.mpr h1, not_lt.mpr h2, if_false]
+    simp only [Xrfmv.Gen.Bandwidth.adapted, Xrfmv.Gen.Bandwidth.guardMult, Option.map_some, not_lt.mpr h1, not_lt.mpr h2, if_false]
     congr 1
     ring
 
